@@ -57,12 +57,32 @@ func (e *Engine) isSink(pkg, name string) bool {
 var denyPkgs = []string{
 	"reflect", "encoding/", "runtime", "os", "net", "syscall", "internal/", "regexp", "text/template",
 	"github.com/mitchellh/", "github.com/imdario/mergo", "sigs.k8s.io/yaml", "gopkg.in/yaml", "github.com/google/go-cmp",
-	"k8s.io/apimachinery/pkg/util/json", "github.com/nleeper/goment", "github.com/furiko-io/cronexpr",
+	"k8s.io/apimachinery/pkg/util/json", "github.com/nleeper/goment",
 	"k8s.io/apimachinery/pkg/runtime", "k8s.io/client-go/tools/record", "k8s.io/client-go/util/workqueue",
 	"k8s.io/apimachinery/pkg/util/wait", "unsafe", "io", "bufio", "bytes", "math/rand", "crypto/", "hash/",
 }
 
+var allowExceptions = map[string]bool{
+	"k8s.io/apimachinery/pkg/runtime/schema": true,
+}
+
+// lookupMethod finds the method of a dynamic type by name (exported names;
+// unexported ones are resolved against the type's own package).
+func (e *Engine) lookupMethod(t types.Type, name string) *ssa.Function {
+	ms := e.prog.MethodSets.MethodSet(t)
+	for i := 0; i < ms.Len(); i++ {
+		sel := ms.At(i)
+		if sel.Obj().Name() == name {
+			return e.prog.MethodValue(sel)
+		}
+	}
+	return nil
+}
+
 func (e *Engine) allowed(pkg string) bool {
+	if allowExceptions[pkg] {
+		return true
+	}
 	for _, d := range denyPkgs {
 		if pkg == d || (strings.HasSuffix(d, "/") && strings.HasPrefix(pkg, d)) || strings.HasPrefix(pkg, d+"/") {
 			return false
@@ -357,7 +377,14 @@ func (e *Engine) Explore(fn *ssa.Function, seed int64) *HarnessResult {
 				}
 				switch {
 				case st == "unsupported" || st == "engine-error" || st == "wrap-possible":
-					inconc[st+": "+p.detail] = true
+					d := p.detail
+					if st == "engine-error" {
+						if os.Getenv("GOSYM_DEBUG") != "" {
+							fmt.Fprintln(os.Stderr, d)
+						}
+						d = strings.SplitN(d, "\n", 2)[0]
+					}
+					inconc[st+": "+d] = true
 				case strings.HasPrefix(st, "unwind"):
 					inconc[st] = true
 				}
